@@ -34,10 +34,12 @@ const (
 	opGetFloat
 	opBindInt
 	opGetSlice
+	opGetFloatOr
+	opGetSliceOr
 	numLinOps
 )
 
-var linOpNames = []string{"Set", "Get", "Has", "Delete", "Len", "Keys", "GetAll", "Merge", "Clear", "GetInt", "GetIntOr", "GetString", "GetStringOr", "GetFloat64", "Bind", "GetSlice"}
+var linOpNames = []string{"Set", "Get", "Has", "Delete", "Len", "Keys", "GetAll", "Merge", "Clear", "GetInt", "GetIntOr", "GetString", "GetStringOr", "GetFloat64", "Bind", "GetSlice", "GetFloat64Or", "GetSliceOr"}
 
 type linState [linKeys]int64 // 0 = absent, otherwise the unique code of the value
 
@@ -63,8 +65,11 @@ type linOut struct {
 
 // value representation: codes divisible by 4 are stored as strings, others as ints, so the typed getters have something to distinguish
 func linRepr(code int64) any {
-	if code%4 == 0 {
+	switch code % 4 {
+	case 0:
 		return fmt.Sprintf("s%d", code)
+	case 3:
+		return []int{int(code)} // a typed slice
 	}
 	return int(code)
 }
@@ -73,6 +78,10 @@ func linCode(v any) int64 {
 	switch x := v.(type) {
 	case int:
 		return int64(x)
+	case []int:
+		if len(x) == 1 {
+			return int64(x[0])
+		}
 	case string:
 		var c int64
 		if _, err := fmt.Sscanf(x, "s%d", &c); err == nil {
@@ -89,8 +98,9 @@ func linStep(state, input, output any) (bool, any) {
 	in := input.(linIn)
 	out := output.(linOut)
 	cur := st[in.Key%linKeys]
-	isInt := cur != 0 && cur%4 != 0
+	isInt := cur != 0 && (cur%4 == 1 || cur%4 == 2)
 	isStr := cur != 0 && cur%4 == 0
+	isSlice := cur != 0 && cur%4 == 3
 	switch in.Op {
 	case opSet:
 		st[in.Key] = in.Val
@@ -167,8 +177,22 @@ func linStep(state, input, output any) (bool, any) {
 			return !out.OK, st
 		}
 		return out.OK && out.V == cur, st
-	case opGetSlice: // never a slice: nil
+	case opGetSlice:
+		if isSlice {
+			return out.N == 1 && out.V == cur, st
+		}
 		return out.N == 0, st
+	case opGetFloatOr:
+		want := int64(-7)
+		if isInt {
+			want = cur
+		}
+		return out.V == want, st
+	case opGetSliceOr: // N == -1 encodes "the default was returned"
+		if isSlice {
+			return out.N == 1 && out.V == cur, st
+		}
+		return out.N == -1, st
 	}
 	return false, st
 }
@@ -254,7 +278,28 @@ func linApplyOwn(s *flyt.SharedStore, in linIn, own map[string]any) linOut {
 		}
 		return linOut{OK: true, V: int64(d)}
 	case opGetSlice:
-		return linOut{N: len(s.GetSlice(k))}
+		g := s.GetSlice(k)
+		o := linOut{N: len(g)}
+		if len(g) > 0 {
+			if x, ok := g[0].(int); ok {
+				o.V = int64(x)
+			}
+		}
+		return o
+	case opGetFloatOr:
+		return linOut{V: int64(s.GetFloat64Or(k, -7))}
+	case opGetSliceOr:
+		g := s.GetSliceOr(k, []any{"DEFAULT"})
+		if len(g) == 1 && g[0] == any("DEFAULT") {
+			return linOut{N: -1}
+		}
+		o := linOut{N: len(g)}
+		if len(g) > 0 {
+			if x, ok := g[0].(int); ok {
+				o.V = int64(x)
+			}
+		}
+		return o
 	}
 	return linOut{}
 }
@@ -279,6 +324,10 @@ type LinCase struct {
 var mixRead = []int{opSet, opSet, opGet, opGet, opHas, opLen, opKeys, opGetAll, opGetAll, opMerge, opClear, opDelete, opGetInt, opGetIntOr, opGetString, opGetStringOr, opGetFloat, opBindInt, opGetSlice, opLen, opKeys}
 var mixMerge = []int{opMerge, opMerge, opMerge, opClear, opClear, opGetAll, opGetAll, opGetAll, opKeys, opLen, opSet, opDelete, opGet}
 
+// hot-key mix: one key, values of changing type, typed getters with non-zero defaults (a getter that reads the store
+// twice is caught between a Set/Delete pair)
+var mixHot = []int{opSet, opSet, opSet, opDelete, opDelete, opGetFloatOr, opGetFloatOr, opGetIntOr, opGetSliceOr, opGetSliceOr, opGetSlice, opGetStringOr, opClear, opBindInt}
+
 // re-merge mix: clients read (GetAll/Get) and merge back what they saw plus something new, against Clear/Delete/Set
 var mixRemerge = []int{opMerge, opMerge, opMerge, opMerge, opGetAll, opGetAll, opGet, opClear, opClear, opDelete, opDelete, opSet, opHas, opLen, opKeys}
 
@@ -292,6 +341,14 @@ func recordHistory(c *Cfg, idx int) *LinCase {
 		mix = mixMerge
 	case 1:
 		mix, reseen = mixRemerge, true
+	case 2:
+		if idx%8 == 2 {
+			mix = mixHot
+		}
+	}
+	hot := len(mix) == len(mixHot) && mix[5] == opGetFloatOr
+	if hot && clients > 3 {
+		clients = 3
 	}
 	type plan struct {
 		ins    []linIn
@@ -300,8 +357,14 @@ func recordHistory(c *Cfg, idx int) *LinCase {
 	plans := make([]plan, clients)
 	for cl := 0; cl < clients; cl++ {
 		n := 6 + rg.IntN(5)
+		if hot {
+			n = 20 + rg.IntN(12)
+		}
 		for j := 0; j < n; j++ {
 			in := linIn{Op: mix[rg.IntN(len(mix))], Key: rg.IntN(linKeys)}
+			if hot {
+				in.Key = 0
+			}
 			in.Val = int64(cl+1)<<20 | int64(j+1)<<2 | int64(1+rg.IntN(3)) // unique; low bits decide int / string
 			if rg.IntN(4) == 0 {
 				in.Val &^= 3 // string-typed value
